@@ -149,6 +149,9 @@ func (s *mwSession) stop() {
 
 var errStall = fmt.Errorf("stalled")
 
+// steps of this run that ran into their 10 s limit: after a few the sweeps stop (every further one would wait again)
+var mwStalls int
+
 // collect server messages on the client side until the barrier NOTICE `id`
 func (s *mwSession) untilBarrier(id string) ([]mocrelay.ServerMsg, error) {
 	var got []mocrelay.ServerMsg
@@ -264,15 +267,23 @@ func runMwSteps(s *mwSession, steps []mwStep) []any {
 			o := M{"dir": "c", "now": now, "msg": cmsgJ(st.C), "out": M{"fwd": one(fwd, func(m mocrelay.ClientMsg) any { return cmsgJ(m) }), "reply": one(reply, func(m mocrelay.ServerMsg) any { return smsgJ(m) })}}
 			if err != nil {
 				o["stalled"] = true
+				mwStalls++
 			}
 			outs = append(outs, o)
+			if err != nil {
+				break // the session is stuck: its remaining steps would only wait
+			}
 		} else {
 			got, err := s.serverStep(st.S)
 			o := M{"dir": "s", "msg": smsgJ(st.S), "out": M{"got": one(got, func(m mocrelay.ServerMsg) any { return smsgJ(m) })}}
 			if err != nil {
 				o["stalled"] = true
+				mwStalls++
 			}
 			outs = append(outs, o)
+			if err != nil {
+				break
+			}
 		}
 	}
 	return outs
@@ -319,7 +330,7 @@ func genMwMsg(r *Rng, g *EvGen, stack []mwSpec, nowSec int64) mocrelay.ClientMsg
 				if r.P(60) {
 					n := int(s.N) + r.Range(-1, 1)
 					e.Tags = []mocrelay.Tag{}
-					for i := 0; i < n; i++ {
+					for i := 0; i < n && mwStalls < 4; i++ {
 						e.Tags = append(e.Tags, mocrelay.Tag{"t", fmt.Sprint(i)})
 					}
 				}
@@ -354,7 +365,7 @@ func genMwMsg(r *Rng, g *EvGen, stack []mwSpec, nowSec int64) mocrelay.ClientMsg
 						n = 1
 					}
 					fs = nil
-					for i := 0; i < n; i++ {
+					for i := 0; i < n && mwStalls < 4; i++ {
 						fs = append(fs, g.Filter())
 					}
 				}
@@ -430,7 +441,7 @@ func genMwSpec(r *Rng, g *EvGen, kinds []string) mwSpec {
 func genSteps(r *Rng, g *EvGen, stack []mwSpec, n int) []mwStep {
 	var steps []mwStep
 	nowSec := time.Now().Unix()
-	for i := 0; i < n; i++ {
+	for i := 0; i < n && mwStalls < 4; i++ {
 		if r.P(75) {
 			steps = append(steps, mwStep{Dir: "c", C: genMwMsg(r, g, stack, nowSec)})
 		} else {
@@ -603,7 +614,7 @@ func init() {
 	props["C17"] = propRunner{
 		gen: func(r *Rng, n int, tier string) {
 			g := &EvGen{r: r}
-			for i := 0; i < n; i++ {
+			for i := 0; i < n && mwStalls < 4; i++ {
 				if r.P(35) {
 					d := genNip11(r)
 					execNip11Case(d, genSteps(r, g, d.stackForGen(), r.Range(4, 14)))
